@@ -8,6 +8,7 @@
 #pragma once
 
 #include "corecel/Types.hh"
+#include "corecel/math/Algorithms.hh"
 
 namespace celeritas
 {
@@ -63,7 +64,10 @@ CELER_FUNCTION float GenerateCanonical32<float>::operator()(Generator& rng)
                   "Generator must return 32-bit sample");
 
     constexpr float norm = 2.32830643654e-10f;  // 1 / 2**32
-    return norm * rng();
+    // Samples above 2^32 - 2^7 round up to 2^32 when converted to float: keep
+    // the result strictly below one
+    constexpr float max_canonical = 0x1.fffffep-1f;
+    return celeritas::min(norm * rng(), max_canonical);
 }
 
 //---------------------------------------------------------------------------//
